@@ -1551,3 +1551,69 @@ func c01ExcludesKeptWhole(c *Ctx) {
 		c.Fail(rule, "anchor", token.NoPos, "no store into an exclude-path member of the module read bucket found")
 	}
 }
+
+// ---- C07 (after round-6 seed C07-p) --------------------------------------------------------------------------------
+
+// c07HasCommentCoversTokens (HAS-COMMENT-COVERS-TOKENS): duplicate imports are removed unless they carry a comment, so
+// "does this import have a comment" must look at every token of the statement - a comment can hang on the `;` as well
+// as on the keyword or the path. A formatter method that answers such a question for a node by calling nodeHasComment
+// on members of the node passes every member of the node that is itself a node (keyword, modifiers, name, semicolon).
+func c07HasCommentCoversTokens(c *Ctx, pk, pa *packages.Package, nodeIface *types.Interface) {
+	const rule = "HAS-COMMENT-COVERS-TOKENS"
+	c.Rule(rule, "a has-comment question about a statement looks at every token of the statement", 1)
+	p := c.P
+	n := 0
+	for _, sf := range p.SSAFuncsOf([]*packages.Package{pk}) {
+		if sf.Signature.Recv() == nil || sf.Signature.Results().Len() != 1 || !isBoolType(sf.Signature.Results().At(0).Type()) || len(sf.Params) != 2 {
+			continue
+		}
+		node := sf.Params[1]
+		st, ok := derefType(node.Type()).Underlying().(*types.Struct)
+		if !ok || !strings.Contains(namedPath(derefType(node.Type())), "protocompile/ast.") {
+			continue
+		}
+		asked := map[int]bool{}
+		calls := 0
+		for _, call := range callsIn(sf) {
+			o := staticCalleeObj(call.Call)
+			if o == nil || o.Name() != "nodeHasComment" {
+				continue
+			}
+			calls++
+			for _, a := range call.Call.Args {
+				sliceBack(a, func(x ssa.Value) bool {
+					if fa, ok := x.(*ssa.FieldAddr); ok && stripConv(fa.X) == ssa.Value(node) {
+						asked[fa.Field] = true
+					}
+					return true
+				})
+			}
+		}
+		if calls == 0 || len(asked) == 0 {
+			continue
+		}
+		n++
+		var missing []string
+		for i := 0; i < st.NumFields(); i++ {
+			ft := st.Field(i).Type()
+			if !st.Field(i).Exported() {
+				continue
+			}
+			if _, isPtr := ft.Underlying().(*types.Pointer); !isPtr {
+				if _, isIface := ft.Underlying().(*types.Interface); !isIface {
+					continue
+				}
+			}
+			if !types.Implements(ft, nodeIface) {
+				continue
+			}
+			if !asked[i] {
+				missing = append(missing, st.Field(i).Name())
+			}
+		}
+		c.Ob(rule, ssaFuncName(sf)+"/"+typeShort(node.Type()), sf.Pos(), len(missing) == 0, true, "members of the node that are nodes themselves and are not asked about: %v", missing)
+	}
+	if n == 0 {
+		c.Fail(rule, "anchor", token.NoPos, "no has-comment method over the members of a node found")
+	}
+}
